@@ -160,14 +160,17 @@ CLAIMS = {
         technique="byte-layout abstract evaluation + linear/interval reasoning on the padding size + dominance; refutation by term evaluation",
         ref="5/C10"),
     "C11": dict(
-        text="Static, partial: string keys partitioned by re.fullmatch of the two patterns with the right polarity; dependencies "
-             "removed from the candidates before payload selection; each extracted key popped (not copied) and handed to the "
+        text="Static, partial: the two lists the extraction loop and the dependency loop walk are extracted as terms and evaluated "
+             "on a grid of key sets x patterns (fullmatch vs match/search, both polarities, None, non-string keys, a key matching "
+             "both patterns; loops folded with Python's live-list semantics) against the specification - dependencies = string "
+             "keys fully matching the dependency pattern, extracted = the other string keys not fully matching the omit pattern, "
+             "disjoint (rules on normal forms as fallback); each extracted key popped (not copied) and handed to the "
              "cache under the same key; each dependency recursed with the same two patterns and stored back under its own "
              "key; write set on the envelope map is exactly that; result re-encodes the same tag; single extraction pops, "
              "optionally replaces under the same name with the whole replacement file, writes the popped bytes unmodified, "
              "dumps after the modification; decoded-tag mutation rule.",
         note=TB + "NOT decided: byte identity of untouched members after cbor2.dumps.",
-        technique="abstract evaluation (same-key pairing, write-set, provenance) + interprocedural provenance fixpoint for decoded tag content",
+        technique="abstract evaluation (same-key pairing, write-set, provenance) + evaluation of the extracted selection terms on a separating grid + interprocedural provenance fixpoint for decoded tag content",
         ref="5/C11"),
     "C15": dict(
         text="Static, partial: X||Y widths are one expression independent of the coordinate values evaluating to 32/48/66, big "
@@ -201,7 +204,8 @@ CLAIMS = {
              "can leave the parser must be within {ValueError family, SUITError, CBORDecodeError}; every from_cbor call passes "
              "bytes; sibling signatures; nullable metadata fields; cbor2.loads only inside deserialize_cbor after validation "
              "under a converting catch-all; the decoded item passes a value-sharing guard before it is returned (CBOR tags 28/29, "
-             "repaired in fe22bac); every while loop of the parser advances on each path back to its head; schema cycles "
+             "repaired in fe22bac) and refuses a Decimal signaling NaN, the one decoder product whose == raises (repaired in "
+             "40cfe16); every while loop of the parser advances on each path back to its head; schema cycles "
              "through a byte-string-wrapped edge need a depth guard (one recorded known finding).",
         note=TB + "Exception hierarchy and decoder facts (cbor2 max_depth=400; hasattr(x,'tag') only for CBORTag) are library "
                   "facts. NOT decided: time and memory proportional to the input.",
